@@ -7,6 +7,7 @@ package interp
 import (
 	"fmt"
 	"go/types"
+	"math/big"
 	"strings"
 )
 
@@ -124,6 +125,8 @@ func registerNumStubs(e *Engine) {
 	e.reg("math/bits.Len16", lenN(16))
 	e.reg("math/bits.Len8", lenN(8))
 	e.reg("math/bits.Len", lenN(64))
+
+	registerBigFloatStubs(e)
 
 	// logging.PackageLogger returns (*zap.Logger, Tracer)
 	tracerT := newEngType("engTracer", types.NewPointer(types.Typ[types.Int]), map[string]engMethod{
@@ -296,3 +299,62 @@ func hasSymArg(args []value) bool {
 }
 
 var _ = strings.Contains
+
+// math/big.Float on concrete values only: the engine keeps a native *big.Float.
+func bigFloatOf(v value) *big.Float {
+	p, ok := v.(*value)
+	if !ok || p == nil {
+		panic(rtPanic("invalid memory address or nil pointer dereference (nil *big.Float)"))
+	}
+	if o, ok := (*p).(*opaque); ok && o.kind == "bigfloat" {
+		return o.p.(*big.Float)
+	}
+	// a zero big.Float allocated by new(big.Float)
+	f := new(big.Float)
+	*p = &opaque{kind: "bigfloat", p: f}
+	return f
+}
+
+func newBigFloat(f *big.Float) value {
+	v := value(&opaque{kind: "bigfloat", p: f})
+	return &v
+}
+
+func registerBigFloatStubs(e *Engine) {
+	e.reg("math/big.NewFloat", func(fr *frame, args []value) value {
+		x, ok := args[0].(float64)
+		if !ok {
+			panic(unsupported{"big.NewFloat of a symbolic float"})
+		}
+		return newBigFloat(big.NewFloat(x))
+	})
+	e.reg("math/big.ParseFloat", func(fr *frame, args []value) value {
+		s, ok := args[0].(string)
+		if !ok {
+			panic(unsupported{"big.ParseFloat of a symbolic string"})
+		}
+		f, b, err := big.ParseFloat(s, int(asInt64c(args[1])), uint(asInt64c(args[2])), big.RoundingMode(asInt64c(args[3])))
+		if err != nil {
+			return tuple{(*value)(nil), 0, mkError(err.Error(), nil)}
+		}
+		return tuple{newBigFloat(f), b, iface{}}
+	})
+	m := "(*math/big.Float)."
+	e.reg(m+"SetPrec", func(fr *frame, args []value) value {
+		bigFloatOf(args[0]).SetPrec(uint(asInt64c(args[1])))
+		return args[0]
+	})
+	e.reg(m+"Text", func(fr *frame, args []value) value {
+		return bigFloatOf(args[0]).Text(byte(asInt64c(args[1])), int(asInt64c(args[2])))
+	})
+	e.reg(m+"String", func(fr *frame, args []value) value { return bigFloatOf(args[0]).String() })
+	e.reg(m+"Float64", func(fr *frame, args []value) value {
+		f, acc := bigFloatOf(args[0]).Float64()
+		return tuple{f, concreteOf(uint64(int64(acc)), basicKind(fr.fn.Signature.Results().At(1).Type()))}
+	})
+	e.reg(m+"Add", func(fr *frame, args []value) value {
+		bigFloatOf(args[0]).Add(bigFloatOf(args[1]), bigFloatOf(args[2]))
+		return args[0]
+	})
+	e.reg(m+"Cmp", func(fr *frame, args []value) value { return bigFloatOf(args[0]).Cmp(bigFloatOf(args[1])) })
+}
